@@ -1,9 +1,11 @@
 (* Correspondence harness for the collector model (engine E1, property C09).
 
-   run gen <seed> <ncases> <outdir> [profile]
+   run gen <seed> <ncases> <outdir> [profile [first]]
         writes <outdir>/case<i>.hist (operation history) and <outdir>/case<i>.exp (the
-        model's canonical dump after gc_new and after every operation); prints the input
-        distribution as JSON on stdout.  profile: mixed (default) | tiny | boundary | long
+        model's canonical dump after gc_new and after every operation), i = first ..
+        first+ncases-1 (first defaults to 0); prints the input distribution as JSON on
+        stdout.  profile: mixed (default) | tiny | boundary | long
+        (boundary: case i uses heap size 2 + i mod 299, i.e. every size 2..300 in turn)
    run replay <hist> [<outhist>]
         re-runs an existing history through the model: operations the model rejects are
         dropped, the "!oom" markers are recomputed; prints the dump of the normalised
@@ -599,7 +601,7 @@ let m_append st =
   end else m_arr st
 
 let m_mutate st =
-  match rint st.r 6 with
+  match rint st.r 7 with
   | 0 | 1 ->
     let vs = cells_where st (function Vec (_ :: _) -> true | _ -> false) in
     if Array.length vs > 0 then begin
@@ -607,7 +609,7 @@ let m_mutate st =
       let n = (match st.sn.objs.(a) with Some (Vec l) -> List.length l | _ -> 1) in
       ignore (emit st (HSetVec (a, rint st.r n, any_ref st)))
     end
-  | 2 ->
+  | 2 | 6 ->
     let vs = cells_where st (function Arr (_, _ :: _) -> true | _ -> false) in
     if Array.length vs > 0 then begin
       let a = pick st.r vs in
@@ -872,7 +874,7 @@ let gen_case (r : rng) profile i outdir : unit =
     decr guard;
     let full = st.sn.nfree = 0 in
     let mi =
-      if full && chance st.r 70 then
+      if full && chance st.r 88 then
         (let x = rint st.r 10 in if x < 6 then 16 (* collect *) else if x < 8 then 15 (* roots *) else 17 (* run *))
       else pick_weighted st.r weights in
     let name, f = macros.(mi) in
@@ -890,25 +892,28 @@ let gen_case (r : rng) profile i outdir : unit =
   w (Filename.concat outdir (Printf.sprintf "case%d.hist" i)) st.hist;
   w (Filename.concat outdir (Printf.sprintf "case%d.exp" i)) st.exp
 
-let gen seed ncases outdir profile =
+let gen seed ncases outdir profile first =
   (try Unix.mkdir outdir 0o755 with Unix.Unix_error (Unix.EEXIST, _, _) -> ());
   let r = rng_make seed in
-  for i = 0 to ncases - 1 do gen_case r profile i outdir done;
+  for i = first to first + ncases - 1 do gen_case r profile i outdir done;
   Printf.printf "{\"seed\": %d, \"profile\": %S, \"ops\": %s, \"object_kinds\": %s, \"events\": %s, \"heap_sizes\": %s, \"history_lengths\": %s, \"styles\": %s, \"macros\": %s}\n"
     seed profile (json_of_tbl st_ops) (json_of_tbl st_kinds) (json_of_tbl st_misc)
     (json_of_tbl st_sizes) (json_of_tbl st_lens) (json_of_tbl st_styles) (json_of_tbl st_macros)
 
 let usage () =
-  prerr_endline "usage: run gen <seed> <ncases> <outdir> [mixed|tiny|boundary|long]\n       run replay <hist> [<outhist>]";
+  prerr_endline "usage: run gen <seed> <ncases> <outdir> [mixed|tiny|boundary|long [first]]\n       run replay <hist> [<outhist>]";
   exit 2
 
 let () =
   try
     match Array.to_list Sys.argv with
-    | [ _; "gen"; seed; n; outdir ] -> gen (int_of_string seed) (int_of_string n) outdir "mixed"
+    | [ _; "gen"; seed; n; outdir ] -> gen (int_of_string seed) (int_of_string n) outdir "mixed" 0
     | [ _; "gen"; seed; n; outdir; profile ] ->
       if not (List.mem profile [ "mixed"; "tiny"; "boundary"; "long" ]) then usage ();
-      gen (int_of_string seed) (int_of_string n) outdir profile
+      gen (int_of_string seed) (int_of_string n) outdir profile 0
+    | [ _; "gen"; seed; n; outdir; profile; first ] ->
+      if not (List.mem profile [ "mixed"; "tiny"; "boundary"; "long" ]) then usage ();
+      gen (int_of_string seed) (int_of_string n) outdir profile (int_of_string first)
     | [ _; "replay"; h ] -> replay h None
     | [ _; "replay"; h; o ] -> replay h (Some o)
     | _ -> usage ()
